@@ -50,6 +50,17 @@ func main() {
 				continue
 			}
 			fmt.Println(k, "writes:", sortedKeys(E.writeSet(fn)))
+			if os.Getenv("GOWP_DEBUG") != "" {
+				for _, b := range fn.Blocks {
+					for _, in := range b.Instrs {
+						w := map[string]bool{}
+						E.instrWrites(nil, in, w)
+						if len(w) > 0 {
+							fmt.Printf("   %s: %v\n", in.String(), sortedKeys(w))
+						}
+					}
+				}
+			}
 		}
 	case "vc":
 		cmdVC(os.Args[2:])
